@@ -251,7 +251,7 @@ def run(run):
                                    "flush_point": F, "read_point": R, "read_kind": rk})
     run.parallel(crossing_task, ctasks)
     from . import c03_stress
-    c03_stress.run_stress(run, 12 if quick else 300)
+    c03_stress.run_stress(run, 12 if quick else 120)
     run.min_distinct = 60
     need = {"live0", "passive1", "indexed1"}
     run.assumptions = ["applied = acknowledged and followed by a shard-mailbox barrier before the read is issued",
